@@ -232,6 +232,23 @@ func vScenarioC01(rc *runCtx) {
 	o.srcPaths = spec.paths
 	o.dstDir = dst
 	o.profile = vDrawProfile(tp, cfg.timeout)
+	if cfg.upload && !cfg.fork && tp.Bool("c01.dragupload", 250) {
+		o.uploadVia = 1 + tp.Draw("c01.uploadvia", 2)
+		for _, p := range spec.paths {
+			if strings.Contains(p, "'") {
+				o.uploadVia = 1 // how a terminal would quote such a dropped path is not something trzsz defines
+			}
+		}
+		if o.uploadVia == 2 {
+			o.filterOpts.DetectDragFile = true
+		}
+		// the drag queue forgets the files 3 s after it has typed the command: stay well inside
+		if o.profile.latMax > 200*time.Millisecond {
+			o.profile.latMax = 200 * time.Millisecond
+		}
+		// the drag queue decides by itself whether the command needs -d: sources and mode agree
+		cfg.key()
+	}
 	sort.Strings(spec.classes)
 	rc.res.ClassKey = cfg.key()
 	rc.res.Scenario["config"] = cfg.key()
@@ -241,12 +258,22 @@ func vScenarioC01(rc *runCtx) {
 	rc.res.Scenario["bytes"] = spec.bytes
 	rc.res.Scenario["content"] = spec.classes
 	rc.res.Scenario["transport"] = o.profile.String()
+	rc.res.Scenario["upload_via"] = o.uploadVia
+	if o.uploadVia != 0 {
+		var names []string
+		for _, p := range o.srcPaths {
+			names = append(names, filepath.Base(p))
+		}
+		rc.res.Scenario["src_names"] = names
+	}
+	rc.res.ClassKey += fmt.Sprintf(" via%d", o.uploadVia)
 
 	before := vSnapshot(dst)
 	x := newXferWorld(rc, o)
 	x.start()
 	rc.w.Run(x.finished)
 	rep := x.report()
+	rc.res.Scenario["shell_cmd"] = x.shellCmd
 	vCheckFidelity(rc, x, rep, before, true)
 	if rc.job.Trace && rc.res.Class != "ok" {
 		x.dumpWire(rc, 1500)
